@@ -64,6 +64,10 @@ def prepare(case):
                     else:
                         r["true_name"] = "T_%s" % tok
                         r["name"] = "N_%s" % tok
+                        r["scoped_name"] = "S_%s" % tok
+                elif kind in ("elements", "manifests"):
+                    r["name"] = "N_%s" % tok
+                    r["scoped_name"] = "S_%s" % tok
         dbs.append(db)
     return dbs
 
@@ -147,15 +151,25 @@ def judge(case, ctx):
                 q = case["queries"][i]
                 if q:
                     # names of every file loaded so far must be found, names of files not yet requested must not
+                    # (every by-name table has its own freshness bit: each is queried, for every kind of record that has one)
                     for j in range(k):
                         for t in dbs[j]["types"][:2]:
                             if t["true_name"] in SHARED or not t["name"]:
                                 continue
-                            cmds.append("byname interrogate_get_type_by_name %s" % idb.hexs(t["name"]))
-                            expect_lookup.append((t["name"], j in loaded, pos))
+                            for fn, fld in (("interrogate_get_type_by_name", "name"), ("interrogate_get_type_by_scoped_name", "scoped_name"),
+                                            ("interrogate_get_type_by_true_name", "true_name"))[:1 + (q + pos) % 3]:
+                                cmds.append("byname %s %s" % (fn, idb.hexs(t[fld])))
+                                expect_lookup.append((t[fld], j in loaded, pos, "t", t["comment"]))
+                        for e in dbs[j]["elements"][:2]:
+                            for fn, fld in (("interrogate_get_element_by_name", "name"), ("interrogate_get_element_by_scoped_name", "scoped_name"))[(q + pos) % 2:]:
+                                cmds.append("byname %s %s" % (fn, idb.hexs(e[fld])))
+                                expect_lookup.append((e[fld], j in loaded, pos, "e", e["comment"]))
+                        for m in dbs[j]["manifests"][:2]:
+                            cmds.append("byname interrogate_get_manifest_by_name %s" % idb.hexs(m["name"]))
+                            expect_lookup.append((m["name"], j in loaded, pos, "m", m["definition"]))
                     if q >= 3:
                         cmds.append("call interrogate_number_of_types")
-                        expect_lookup.append(("#types", None, pos))
+                        expect_lookup.append(("#types", None, pos, None, None))
             cmds += ["dump", "flag"]
             r = idb.run_script(cmds, timeout=120)
             if r.crashed:
@@ -164,12 +178,16 @@ def judge(case, ctx):
             if "FLAG 0" not in r.lines:
                 return Outcome(ok=False, key="flag", detail="load order %s raises the error flag: %s" % (perm, r.res.err.decode("latin-1")[-300:]))
             res = [json.loads(l[2:]) for l in r.lines if l.startswith("R ")]
-            for (nm, want, pos), got in zip(expect_lookup, res):
+            dump = idb.dumps_in(r.lines)[0]
+            toks = {(kind, idx): rec.get(TOKEN_FN[kind], "") for (kind, idx), rec in dump["rec"].items()}
+            for (nm, want, pos, letter, token), got in zip(expect_lookup, res):
                 if want is True and got == 0:
                     return Outcome(ok=False, key="lookup-stale", detail="load order %s: after request %d a by-name lookup of %r (already loaded) returns 0" % (perm, pos, nm))
                 if want is False and got != 0:
                     return Outcome(ok=False, key="lookup-early", detail="load order %s: lookup of %r succeeds before its file was requested" % (perm, nm))
-            dump = idb.dumps_in(r.lines)[0]
+                if want is True and (letter, got) in toks and toks[(letter, got)] != token:      # (the dump lists what enumeration reaches)
+                    return Outcome(ok=False, key="lookup-wrong-record", detail="load order %s: after request %d the lookup of %r returns index %d, which is record %r, not %r" % (
+                        perm, pos, nm, got, toks.get((letter, got)), token))
             bad = compare(dump, singles, dbs, shared, perm)
             if bad:
                 return Outcome(ok=False, key=bad[0], detail="load order %s (styles %s): %s" % (perm, case["styles"], bad[1]))
